@@ -620,7 +620,12 @@ def run_c03(ctx):
         c["tag"] = tag
         got = tap.take()
         c["sweeps"] = len(got[-1]["sweeps"]) if got else 0
+        c["sweeps_per_phase"] = [len(r["sweeps"]) for r in got]
         for j, run in enumerate(got):
+            if c["outcome"] == "ok" and run["end"] is not None and run["end"]["kind"] != "return":
+                # the call handed back a table that contains this phase: whatever the inner routine thought, the
+                # observable end of this run of the loop is "returned"
+                run["end"] = dict(run["end"], kind="return", exc="")
             # the loop is judged against the settings the CALLER of solve() requested (defaults of solve()), not against
             # what the inner routine happened to receive; the outcome of the last run is the outcome of the call
             run["inner_args"] = run["args"]
@@ -650,6 +655,11 @@ def run_c03(ctx):
             n_iter = c0["sweeps"] if c0["outcome"] == "ok" else None
             for kw in settings(n_iter)[1:]:
                 record(s, kw, "std")
+            # with phases: maxiter around the sweep count of EVERY phase (a phase other than the last may be the slow one)
+            if c0["outcome"] == "ok" and len(set(c0["sweeps_per_phase"])) > 1:
+                for m in sorted({x - 1 for x in c0["sweeps_per_phase"]} | set(c0["sweeps_per_phase"])):
+                    if m >= 0 and m not in (n_iter, n_iter - 1, n_iter + 1):
+                        record(s, dict(maxiter=m), "std")
         # (c): designed steady states with modest drops must be found
         nd = 0
         for st in it:
